@@ -58,7 +58,14 @@ def rule_route(ctx):
 
     def sources(th):
         found = []
-        st = set(y for y in sym.subterms(th) if isinstance(y, tuple))
+        # the transition theory is one source, whatever it is computed from (`self.transition_axioms()`, `Self::transition_axioms(&self.left,
+        # &self.right)`): its arguments are not sources of the theory it is added as
+        tcalls = [y for y in sym.subterms(th) if isinstance(y, tuple) and y[:2] == ("call", "StrongEquivalenceTask::transition_axioms")]
+        th2 = th
+        if tcalls:
+            from .. import leaves as _lvs
+            th2 = _lvs.replace(th, {y: ("call", "StrongEquivalenceTask::transition_axioms", ()) for y in tcalls})
+        st = set(y for y in sym.subterms(th2) if isinstance(y, tuple))
         if ("fieldof", ME, "left") in st:
             found.append("self.left")
         if ("fieldof", ME, "right") in st:
@@ -196,7 +203,9 @@ def rule_pipe(ctx):
     local_names = {}
     for name in ("left", "right"):
         # the local by its role: the one initialised from self.<side>, whatever it is called
-        cands = [l for ls_ in lets.values() for l in ls_ if l["pat"].get("p") == "Bind" and "self.%s" % name in flow.places_in(flow.summ(l.get("init", {"k": "Lit"})))]
+        other = "right" if name == "left" else "left"
+        cands = [l for ls_ in lets.values() for l in ls_ if l["pat"].get("p") == "Bind" and "self.%s" % name in flow.places_in(flow.summ(l.get("init", {"k": "Lit"})))
+                 and "self.%s" % other not in flow.places_in(flow.summ(l.get("init", {"k": "Lit"})))]      # (a local fed by both sides is the transition theory)
         if len(cands) != 1:
             raise AnalysisGap("decompose: no unique local initialised from self.%s" % name)
         lid = cands[0]["pat"]["id"]
@@ -245,7 +254,16 @@ def rule_transition(ctx):
     collect.check_asp_predicate_collectors(ctx, "COLLECT", fx)
     ev = sym.Eval(fx, inline_depth=0)
     ta = fx.fn("StrongEquivalenceTask::transition_axioms")
-    v = ev.function(ta)
+    if len(ta.get("params", [])) == 2 and not any(q_.get("name") == "self" for q_ in ta["params"]):
+        # an associated function of the two programs: evaluated on what its call in decompose hands it, which must be (self.left, self.right)
+        dec_ = fx.fn("decompose", impl_self=SELF)
+        calls_ = [c_ for c_ in hq.calls(dec_["body"], "StrongEquivalenceTask::transition_axioms")]
+        args_ok = len(calls_) == 1 and [hq.render(strip(a_)).lstrip("&").replace("(", "").replace(")", "") for a_ in calls_[0]["args"]] == ["self.left", "self.right"]
+        if not args_ok:
+            raise AnalysisGap("transition_axioms(a, b) is not called once with (self.left, self.right)")
+        v = ev.function(ta, [("place", "self.left"), ("place", "self.right")])
+    else:
+        v = ev.function(ta)
     # the theory's formulas: one image under F per predicate; F is a named function, a closure, or a later-extracted helper
     preds = F_ = None
     fm = dict(v[2]).get("formulas") if v[:2] == ("ctor", "Theory") else v      # a struct literal, or collected through FromIterator for Theory
@@ -253,13 +271,26 @@ def rule_transition(ctx):
         preds, F_ = fm[2]
     if F_ is None:
         raise AnalysisGap("transition_axioms: the formulas of the theory are not a map over the predicates")
+    # `preds.map(G).map(F)` is `preds.map(|p| F(G(p)))`
+    inner_fns = []
+    while isinstance(preds, tuple) and preds[:2] == ("call", "Iterator::map") and len(preds[2]) == 2 and preds[2][1][:1] in (("fn",), ("closure",)):
+        inner_fns.insert(0, preds[2][1])
+        preds = preds[2][0]
+    arg_p = ("param", "p")
+    for g_ in inner_fns:
+        if g_[0] == "fn":
+            arg_p = ("call", "From::from[Predicate<-Predicate]" if str(g_[1]).split("::")[-1] == "from" else g_[1], (arg_p,))
+        elif len(g_[1]) == 1:
+            arg_p = sym.subst(g_[2], {g_[1][0]: arg_p})
+        else:
+            raise AnalysisGap("transition_axioms: unknown mapping function %r" % (g_[:2],))
     cands = [k for k in fx.bodies if F_[0] == "fn" and (k == F_[1] or k.endswith("::" + F_[1])) and len(fx.bodies[k]) == 1]
     if F_[0] == "fn" and len(cands) == 1:
         t = fx.bodies[cands[0]][0]
-        tv = sym.Eval(fx, inline_depth=0).function(t, [("param", "p")])
+        tv = sym.Eval(fx, inline_depth=0).function(t, [arg_p])
     elif F_[0] == "closure" and len(F_[1]) == 1:
         t = ta
-        tv = sym.subst(F_[2], {F_[1][0]: ("param", "p")})
+        tv = sym.subst(F_[2], {F_[1][0]: arg_p})
     else:
         raise AnalysisGap("transition_axioms: unknown mapping function %r" % (F_[:2],))
     p = ("call", "From::from[Predicate<-Predicate]", (("param", "p"),))
@@ -269,7 +300,9 @@ def rule_transition(ctx):
                                           ("ctor", "Quantifier::Forall", ()), ("call", "Formula::free_variables", (hp,))))
     # hp and tp are copies of one atom p(X1..Xn): the universal closure of the implication binds the same variables as `forall free(hp)`
     ref2 = ("call", "Formula::universal_closure", (ref[2][0],))
-    ctx.add("TPL", "transition", tv in (ref, ref2), ctx.site(t), "transition(p) = forall free(hp) (here(p(X..)) -> there(p(X..)))", construct=tv)
+    from .. import leaves as _lvt
+    tv_n = _lvt.replace(tv, {("call", "Into::into", (("param", "p"),)): p, ("conv", "Predicate", ("param", "p")): p})
+    ctx.add("TPL", "transition", tv in (ref, ref2) or tv_n in (ref, ref2), ctx.site(t), "transition(p) = forall free(hp) (here(p(X..)) -> there(p(X..)))", construct=tv)
     sources = set()
     if preds is not None:
         for x in sym.subterms(preds):
